@@ -269,7 +269,11 @@ def py_len(it, x):
     if isinstance(x, ABytes):
         return x.ln
     if isinstance(x, SStr):
-        raise Unsupported("len() of a symbolic str (characters, not bytes)")
+        # number of characters = number of UTF-8 bytes that are not continuation bytes (10xxxxxx)
+        acc = 0
+        for b in x.data.items:
+            acc = acc + (sym.ite(Or(b < 0x80, b >= 0xC0), 1, 0) if is_sym(b) else (0 if 0x80 <= b < 0xC0 else 1))
+        return acc
     if isinstance(x, (SetVal, DequeVal)):
         return len(x.items)
     if isinstance(x, GuardedList):
